@@ -82,6 +82,7 @@ type hStats struct {
 	Undis                         []string
 	Samples                       []map[string]interface{}
 	Items                         int
+	samplesWithQuery              int
 	valModels                     []valModel
 }
 
@@ -392,7 +393,13 @@ func (r *runner) worker() {
 		if vm != nil {
 			st.valModels = append(st.valModels, *vm)
 		}
-		if len(st.Samples) < 3 && res.Aborted == "" && (res.Obligations > 0) {
+		if res.Aborted == "" && res.Obligations > 0 && (len(st.Samples) < 3 || (res.SampleQuery != "" && st.samplesWithQuery < 2)) {
+			if res.SampleQuery != "" {
+				st.samplesWithQuery++
+			}
+			if len(st.Samples) >= 3 {
+				st.Samples = st.Samples[1:]
+			}
 			st.Samples = append(st.Samples, map[string]interface{}{
 				"harness": h.Name, "item": it.String(), "decisions": res.Decisions, "reached": res.Reached,
 				"obligations": res.Obligations, "discharged": res.Discharged, "steps": res.Steps, "one_query": res.SampleQuery,
@@ -941,7 +948,7 @@ func (r *runner) writeEvidence(wall float64, validated, mismatches, nviol int, b
 		"violations_detail":             vl,
 		"budget_exhausted":              r.timedOut,
 		"broken":                        broken,
-		"explanation":                   r.chk.Explanation,
+		"explanation":                   explanationOf(r.chk),
 		"exhaustive":                    false,
 	}
 	ev := map[string]interface{}{
@@ -958,6 +965,13 @@ func (r *runner) writeEvidence(wall float64, validated, mismatches, nviol int, b
 	os.MkdirAll(evDir, 0o755)
 	data, _ := json.MarshalIndent(ev, "", " ")
 	os.WriteFile(filepath.Join(evDir, r.chk.ID+".json"), data, 0o644)
+}
+
+func explanationOf(c *Check) string {
+	if c.Explanation != "" {
+		return c.Explanation
+	}
+	return "Bounded symbolic model checking of the real code: the harness functions listed under 'harnesses' are executed by a go/ssa symbolic executor (regenerated from /repo's current source on this run); shapes, arguments and flags are solver integers / booleans, element values solver reals; every assertion and every Go panic site on a path is an SMT obligation decided by z3 for all values within 'bounds'; counterexamples are replayed against the natively compiled code before being reported."
 }
 
 var _ = big.NewRat
